@@ -49,7 +49,7 @@ func (World) Stub(prop string) []string {
 
 func (World) Assumptions(prop string) []string {
 	common := []string{
-		"validator info of epoch e+1 is derived from the reference node's lists of epoch e: shard, list and index of every listed key are the previous result, every key has exactly one entry, a key is never both new and leaving, new keys never have a low rating, jailed/inactive never empties a shard's eligible entries nor drops a shard below its minimum (except knob allow_below_min)",
+		"validator info of epoch e+1 is derived from the reference node's lists of epoch e: shard, list and index of every listed key are the previous result, every key has exactly one entry, a key is never both new and leaving, new keys never have a low rating, jailed/inactive never empties a shard's eligible entries and never drops a shard below its minimum (the latter except with knob allow_below_min, where the shuffler then refuses the input and the run ends)",
 		"per node: Prepare(e) before Action(e) before Prepare(e+1); duplicates of Prepare only before Action; restarts anywhere; a node whose state was lost because a save failed (code only logs it) and that then restarted leaves the run",
 		"Go map iteration order cannot be seeded: the verdict does not depend on it on the unchanged tree; a map-order dependent mutant is found statistically (ReplayAttempts=30 for C13)",
 	}
